@@ -10,9 +10,10 @@
 (*   MechIntended - every choice made so that the invariants hold;         *)
 (*   MechObserved - transcribed from uxarray/grid/grid.py:1647-1919,       *)
 (*                  geometry.py:163-244, 419-533, core/dataarray.py:153-348*)
-(*                  at /repo HEAD (fixes 5278ad57, 2b8af081, fe3231b0 in). *)
-(*   MechLinesOld, MechDataInCache, MechLineAliased - the mechanisms those *)
-(*                  three commits repaired.                                *)
+(*                  at /repo HEAD (fixes 5278ad57, 2b8af081, fe3231b0,     *)
+(*                  0313f2af, 3e766f04 in).                                *)
+(*   MechLinesOld, MechDataInCache, MechLineAliased, MechSideLast,         *)
+(*   MechKeyNoProject - the mechanisms those five commits repaired.        *)
 (* Intended invariants (clauses, field `bad` of the state):                *)
 (*   GeometryOfThisCall  the geometry returned is the one this call's      *)
 (*                       arguments denote                                  *)
@@ -55,14 +56,18 @@ IdealCols(ev) == IF IsData(ev) THEN { [ name |-> ColName(ev), var |-> ev.var, al
 (* ---- mechanism ------------------------------------------------------------------ *)
 MechIntended == [ gdfCmp |-> {"pe", "proj", "eng", "project"}, gdfReturned |-> "copy", gdfDataInto |-> "copy", sideTables |-> "cache_entry",
                   polyCmp |-> {"pe", "proj"}, lineStore |-> {"pe", "proj"}, lineCmp |-> {"pe", "proj"}, lineReturned |-> "copy" ]
-\* as read at /repo HEAD (after 5278ad57 lines store their projection, 2b8af081 the data column goes
-\* into a copy of the frame, fe3231b0 line collections are handed out as copies)
-MechObserved == [ gdfCmp |-> {"pe", "proj", "eng"}, gdfReturned |-> "cached_object", gdfDataInto |-> "copy", sideTables |-> "last_compute",
+\* as read at /repo HEAD: lines store their projection (5278ad57), the data column goes into a copy of
+\* the frame (2b8af081), line collections are handed out as copies (fe3231b0), a cache hit re-publishes
+\* the side tables of the cached geometry (0313f2af), `project` is part of the GeoDataFrame key (3e766f04).
+\* Still as before: Grid.to_geodataframe hands out the cached frame itself (known finding C15-F7).
+MechObserved == [ gdfCmp |-> {"pe", "proj", "eng", "project"}, gdfReturned |-> "cached_object", gdfDataInto |-> "copy", sideTables |-> "cache_entry",
                   polyCmp |-> {"pe", "proj"}, lineStore |-> {"pe", "proj"}, lineCmp |-> {"pe", "proj"}, lineReturned |-> "copy" ]
 \* earlier mechanisms (each repaired by a commit; TLC shows that each breaks the clauses)
 MechLinesOld     == [ MechObserved EXCEPT !.lineStore = {"pe"} ]                 \* before 5278ad57
 MechDataInCache  == [ MechObserved EXCEPT !.gdfDataInto = "cached_frame" ]       \* before 2b8af081
 MechLineAliased  == [ MechObserved EXCEPT !.lineReturned = "cached_object" ]     \* before fe3231b0
+MechSideLast     == [ MechObserved EXCEPT !.sideTables = "last_compute" ]        \* before 0313f2af
+MechKeyNoProject == [ MechObserved EXCEPT !.gdfCmp = {"pe", "proj", "eng"} ]     \* before 3e766f04
 \* single knobs turned to their intended value (used to explain a failure)
 Knobs == {"gdfCmp", "gdfReturned", "gdfDataInto", "sideTables", "lineReturned"}
 Flip(M, kn) == [ M EXCEPT ![kn] = MechIntended[kn] ]
